@@ -104,6 +104,7 @@ def handle (op : String) (j : Json) : Option Json :=
       | none => Json.null
       | some (g, k) => Json.arr #[str g, Json.str (kindStr k)]
     some (obj [("match", m),
+               ("specName", Json.bool (Spec.Files.isRevName (getBoolD j "sourceless") n)),
                ("legacy", match legacyRev n with | none => Json.null | some g => str g),
                ("stem", str (stem n)),
                ("cacheDir", Json.bool (isCacheDir n)),
